@@ -10,6 +10,7 @@ reap leaves the tree byte-identical; after correcting the cause the same reap de
 exact results.
 """
 import os
+import warnings
 import itertools
 
 import numpy as np
@@ -41,6 +42,7 @@ MIN_REACH = {
     "unsynced_farmer_reaps": {"quick": 15, "thorough": 50},
     "harvesters_with_memory_before_the_other_session_wrote": {"quick": 20, "thorough": 80},
     "reaps_of_crops_with_surplus_falsy_results": {"quick": 40, "thorough": 150},
+    "reaps_with_warnings_turned_into_errors": {"quick": 100, "thorough": 300},
 }
 TIME_BUDGET = {"quick": 400, "thorough": 3400}
 
@@ -67,6 +69,10 @@ def cases(ctx):
                     yield {"kind": kind, "fail": fail, "clean_up": clean_up, "allow_incomplete": allow, "wait": wait,
                            "shape": SHAPES[s], "shuffle": [False, True, 3][idx % 3], "idx": idx}
                     idx += 1
+                    if fail in ("none", "incomplete") and idx % 2 == 0:
+                        yield {"kind": kind, "fail": fail, "clean_up": clean_up, "allow_incomplete": allow, "wait": wait,
+                               "shape": SHAPES[s], "shuffle": [False, True, 3][idx % 3], "idx": idx, "strict_warnings": True}
+                        idx += 1
                     if kind in ("harvester", "sampler") and fail == "none" and not wait:
                         # the same with sync=False (results returned, nothing merged): the clean-up rules do not change
                         yield {"kind": kind, "fail": fail, "clean_up": clean_up, "allow_incomplete": allow, "wait": wait,
@@ -374,11 +380,16 @@ def run_case(ctx, case):
     err, res = None, None
     del order.events[:]
     try:
-        with quiet():
+        with quiet(), warnings.catch_warnings():
+            if case.get("strict_warnings"):
+                # the reaping process turns warnings into errors (python -W error, pytest filterwarnings=error)
+                warnings.simplefilter("error")
+                ctx.count("reaps_with_warnings_turned_into_errors")
             c = xyzpy.Crop(name=name, parent_dir=tmp) if (case["idx"] % 2 and kind in ("raw", "to_ds")) else crop
             res = do_reap(c, **opts)
     except Exception as e:
         err = e
+    warn_raise = bool(case.get("strict_warnings")) and isinstance(err, Warning) and not expect_fail
     ctx.count("attempts")
     bad = []
     after = cropkit.tree_snapshot(loc)
@@ -394,6 +405,13 @@ def run_case(ctx, case):
                 bad.append("reap raised %s but the crop directory was %s" % (type(err).__name__, gone))
             if fail == "conflict" and data_file and open(data_file, "rb").read() != data_before:
                 bad.append("a refused merge changed the harvester's file")
+    elif warn_raise:
+        # a warning surfaced as an exception: legitimate under that filter, but then the reap RAISED -> crop untouched, and
+        # the same reap under the ordinary filters (the retry below) delivers the exact results
+        ctx.count("reaps_that_raised_a_warning_as_error")
+        if after != before:
+            gone = "deleted entirely" if after is None else "changed: %s" % sorted(set(before) ^ set(after))[:4]
+            bad.append("reap raised %s (a warning turned into an error) but the crop directory was %s" % (type(err).__name__, gone))
     else:
         if err is not None:
             bad.append("reap raised %r (options %s, scenario %s)" % (err, opts, fail))
@@ -418,7 +436,7 @@ def run_case(ctx, case):
                 ctx.count("sync_before_delete_observed")
 
     # ---------------- correct the cause and reap again ----------------
-    if expect_fail and not bad:
+    if (expect_fail or warn_raise) and not bad:
         try:
             with quiet():
                 c = xyzpy.Crop(name=name, parent_dir=tmp) if kind in ("raw", "to_ds") else crop
@@ -487,6 +505,6 @@ def run_case(ctx, case):
     except Exception:
         pass
     ctx.rmtree(tmp)
-    ctx.observe(case, key=(kind, fail, str(case["clean_up"]), case["allow_incomplete"], case["wait"], case["shape"], case["shuffle"]),
+    ctx.observe(case, key=(kind, fail, str(case["clean_up"]), case["allow_incomplete"], case["wait"], case["shape"], case["shuffle"], bool(case.get("strict_warnings"))),
                 info={"raised": type(err).__name__ if err else None, "dir_after": "gone" if after is None else "kept",
                       "call_order": ev1})
